@@ -25,6 +25,9 @@ func runC13(c *Ctx) {
 	gChildrenSlot(c, "C13.R1")
 	gWithChildren(c, "C13.R2")
 	handWrittenComponents(c)
+	if c.thorough() {
+		generatedChildrenSlot(c, "C13.R5")
+	}
 }
 
 type compBody struct {
